@@ -300,6 +300,15 @@ def debug_name_probes(chk, w2c2, root):
         ('collide-two-functions', mk({1: 'dup', 2: 'dup'}, [('x', 0)])),
         ('collide-memory-export-style', mk({1: 'sum'}, [('y', 0)])),
     ]
+    # exports of other kinds: an exported MEMORY is a C function <module>_<name> too; exported globals / tables are not
+    for tag_, ename, ekind, dname in (('collide-memory-export', 'memory', 'memory', 'memory'), ('collide-memory-export-escaped', 'mem.0', 'memory', 'memX2E0'),
+                                      ('collide-global-export', 'counter', 'global', 'counter'), ('collide-table-export', 'tbl', 'table', 'tbl')):
+        mm = mk({1: dname, 2: 'plain'}, [('x', 0)])
+        mm.mems.append((1, None, False))
+        mm.globals.append((I32, True, [('i32.const', 5)]))
+        mm.tables.append((2, None))
+        mm.exports.append((ename, ekind, 0))
+        cases.append((tag_, mm))
     for i, nm in enumerate(['core::fmt::write', 'f(int&&)', '<T as U>::f', 'a b', 'a%b', 'a,b', 'a;b', 'a#b', 'a@plt', 'a\\b', 'a"b', 'a\nb', 'caf\u00e9', '$x', 'a.b', '0start']):
         cases.append(('chars-%02d' % i, mk({1: nm, 2: 'plain'}, [('x', 0)])))
     pdir = os.path.join(root, 'gname')
@@ -309,7 +318,7 @@ def debug_name_probes(chk, w2c2, root):
         tag, m = item
         b = m.encode()
         plan = e2e.Plan(m)
-        script = 'I 0\n' + ''.join('c 0 %d\n' % plan.fk(e[0]) for e in m.exports)
+        script = 'I 0\n' + ''.join('c 0 %d\n' % plan.fk(e[0]) for e in m.exports if e[1] == 'func')
         res = []
         base = None
         for oi, opts in enumerate(([], ['-g'], ['-g', '-m'], ['-g', '-f', '2'], ['-g', '-p'])):
